@@ -45,6 +45,12 @@ def curveOps {P : Type} (C : Curve P) (op : String) (args : List String) : Optio
     match pPoint a, pInt k with
     | some a, some k => some ((C.ecScalarMult a k).render rPoint)
     | _, _ => none
+  | "ec_unflatten", [xs] =>
+    match pList pNat xs with
+    | some xs => some (match C.unflatten xs with
+      | some ps => "ok " ++ rPoints ps
+      | none => "err")
+    | none => none
   | "ec_base", [k] =>
     match pInt k with
     | some k => some ((C.ecBaseMult k).render rPoint)
@@ -96,9 +102,7 @@ def run (op : String) (args : List String) : Option String :=
   | "ec_8inv8", [a] =>
     match pPoint a with
     | some a =>
-      some ((do
-        let e ← Ed25519.curve.ecScalarMult a 8
-        Ed25519.curve.ecScalarMult e Ed25519.eightInv : Outcome ECPoint).render rPoint)
+      some ((Ed25519.eightInvEight a).render rPoint)
     | none => none
   | _, c :: rest =>
     if c == "s256" then curveOps Secp256k1.curve op rest
